@@ -206,11 +206,17 @@ def r14_1_scalar_table(ctx, rid='R14.1'):
         return [(e, extra + list(v.guards(at)))]
 
     nonesites = []
+    seen_texts = 0
     for n in news:
         if len(n.args) > 1:
             for e, gs in _text_defs(n.args[1], n, []):
+                if norm(e) == 'str(%s)' % vp or (isinstance(e, ast.Constant) and e.value in ('null', '~', '', 'Null', 'NULL')):
+                    seen_texts += 1
                 if norm(e) == 'str(%s)' % vp and not _excludes_none(gs):
                     nonesites.append(n)
+    if not seen_texts:
+        # neither the str() fallback nor a null spelling is among the texts the rule can see: it would pass without having looked
+        raise AnalysisError('anchor missing: the text that Node.set_value writes for None / through str(value)')
     r.check(not nonesites, "set_value text: None is not spelt str(None) (a null scalar's text resolves to null: 'null', '~' or '')",
             v.key('text:None'), v.loc(nonesites[0]) if nonesites else v.loc(),
             "set_value(None) writes the text 'None' under the null tag: PyYAML's serializer does not resolve 'None' to null, and the dump "
